@@ -63,6 +63,9 @@ func errSweep(col *Collector, r *RNG, tier string) {
 	bad, first := 0, ""
 	for _, code := range codes {
 		msg := fmt.Sprintf("master says %d", code)
+		if code%7 == 3 {
+			msg += " (100% of quota; file bin%log.000007, %d%s)" // a message is data, not a format
+		}
 		pkt := []byte{0xff, byte(code), byte(code >> 8)}
 		if code%2 == 0 {
 			pkt = append(pkt, []byte("#HY000")...)
